@@ -70,7 +70,7 @@ def id_from_packet(t, variant, pkt):
         while isinstance(x, tuple) and (x[0] == "ok" or is_call(x, "Option::<T>::ok_or", "ok_or")):
             x = peel(x[1]) if x[0] == "ok" else peel(x[3][0])
         r, n = chain(x)
-        if not (r == ("param", pkt) and n == ["@" + variant, "0", "packet_id"]):
+        if not (r == ("param", pkt) and n in (["@" + variant, "0", "packet_id"], ["@" + variant, "0", "packet_id", "@Some", "0"])):
             return False
     return True
 
